@@ -2,7 +2,7 @@
 From Coq Require Import List NArith ZArith Bool.
 From V.Lib Require Import Base Hex.
 From V.Gen Require Import C03Tables.
-From V.C03 Require Import HexLit Codec Sha256 Model Spec Corr Wf Proofs Bridge Finding.
+From V.C03 Require Import HexLit Codec Model Spec Corr Wf Proofs Bridge Finding.
 Import ListNotations.
 Local Open Scope N_scope.
 
@@ -85,22 +85,24 @@ Proof. exact (@c_flagopt_ok). Qed.
     ([wf_case]), agreement of all observed quantities with the model's predictions ([run_case]:
     accept/reject, consumed length, re-serialisation, stored branch id, v1-v4 txid / block hash =
     SHA-256d of the encoding, re-parse and generated-equality flags, and the same outcome through
-    every alternative reader) implies the property on the implementation's observation. *)
-Theorem C03_bridge : forall c,
-  is_tx_or_hdr c = true -> wf_case c = true -> run_case c = true -> prop_case c = true.
+    every alternative reader) implies the property on the implementation's observation.  [H] is
+    the identifier hash: the generated case files evaluate [run_case = run_caseH sha256d] and
+    [prop_case = prop_caseH sha256d]. *)
+Theorem C03_bridge : forall H c,
+  is_tx_or_hdr c = true -> wf_case c = true -> run_caseH H c = true -> prop_caseH H c = true.
 Proof. exact bridge. Qed.
 
 (** ... and the accepted prefix is the unique encoding of a well-formed model transaction
     (canonical, bounded length prefixes) whose amounts are all in range. *)
-Theorem C03_tx_bridge_model : forall src ctx b bad n rw txid br s g alts,
-  run_case (Tx src ctx b bad (Ok (TxOk n rw txid br s g)) alts) = true ->
+Theorem C03_tx_bridge_model : forall H src ctx b bad n rw txid br s g alts,
+  run_caseH H (Tx src ctx b bad (Ok (TxOk n rw txid br s g)) alts) = true ->
   exists t r, dec (c_tx (table_valid bad)) b = Some (t, r) /\
               firstn (N.to_nat n) b = enc (c_tx (table_valid bad)) t /\
               wf (c_tx (table_valid bad)) t = true /\
               Forall amount_in_range (tx_unsigned_amounts t) /\
               Forall balance_in_range (tx_signed_amounts t).
 Proof. exact tx_bridge_model. Qed.
-Theorem C03_no_panic_bridge : forall src ctx b bad alts, run_case (Tx src ctx b bad Panic alts) = false.
+Theorem C03_no_panic_bridge : forall H src ctx b bad alts, run_caseH H (Tx src ctx b bad Panic alts) = false.
 Proof. exact no_panic_bridge. Qed.
 
 (** The consensus branch id of a parsed transaction: the caller's for v1-v4 (not on the wire),
